@@ -337,8 +337,16 @@ def run_check(prop, tier="quick", seed=0, jobs=None, budget_s=None):
     fams = props.families(prop)
     only = os.environ.get("VERIF_FAMILIES")
     if only:
-        # development aid (soaking single families); never set by the registered commands
-        fams = [f for f in fams if f.name in only.split(",")]
+        # development aid (soaking single families); never set by the registered commands.
+        # The workers index the full list, so the others stay in place with no units.
+        class _Skip:
+            def __init__(self, f):
+                self.name, self.chunk = f.name, getattr(f, "chunk", 1)
+
+            def units(self, tier):
+                return 0
+
+        fams = [f if f.name in only.split(",") else _Skip(f) for f in fams]
     meta = props.META[prop]
     if budget_s is None:
         budget_s = float(os.environ.get("VERIF_BUDGET_S", "42" if tier == "quick" else "900"))
